@@ -308,7 +308,7 @@ def parse_kani_log(text, res):
     failed = []
     covers = []
     user_checks = 0
-    for cm_ in re.finditer(r'Check \d+: ([^\n]+)\n\s+- Status: (\w+)\n\s+- Description: "(.*)"\n\s+- Location: (\S+)', text):
+    for cm_ in re.finditer(r'Check \d+: ([^\n]+)\n\s+- Status: (\w+)\n\s+- Description: "(.*?)"\n\s+- Location: (\S+)', text, re.S):
         cid, st, desc, loc = cm_.groups()
         if '.cover.' in cid:
             covers.append((desc, st))
@@ -328,7 +328,7 @@ def parse_kani_log(text, res):
     # concrete playback blocks
     plays = []
     for blk in text.split('Concrete playback unit test for')[1:]:
-        pm = re.search(r'/// Check for `(\w+)`: "([^\n]*)"', blk)
+        pm = re.search(r'/// Check for `(\w+)`: "(.*?)"\s*\n\s*#\[test\]', blk, re.S)
         vm0 = re.search(r'let concrete_vals: Vec<Vec<u8>> = vec!\[(.*?)\n\s*\];', blk, re.S)
         if not pm or not vm0:
             continue
